@@ -29,16 +29,17 @@ PARTS = {
               ("utc", 999, 1, 2, 3, 4, 5), ("date", 33, 4, 3)),  # years that need zero padding
     "COUNT": (1, 10),
     "INTERVAL": (1, 2, 13),
-    "BYSECOND": (0, (0, 30), 59),
-    "BYMINUTE": (0, (15, 45)),
+    # incl. the ends of every RFC range (BYSECOND 0-60, BYMINUTE 0-59, BYHOUR 0-23, +-31, +-366, +-53)
+    "BYSECOND": (0, (0, 30), 59, 60),
+    "BYMINUTE": (0, (15, 45), 59),
     "BYHOUR": (0, (9, 17), 23),
     # the last entries mix the library's own typed values (what decoding yields) with plain ones in one list
     "BYDAY": ("MO", ("TU", "TH"), "+1MO", "-1SU", ("1FR", "-2SA"), (vWeekday("1MO"), "-1fr"), ("we", vWeekday("MO"))),
-    "BYMONTHDAY": (1, -1, (1, 15, -1), (vInt(1), -1)),
-    "BYYEARDAY": (1, -1, (100, -100)),
-    "BYWEEKNO": (1, -1, (20, 53)),
+    "BYMONTHDAY": (1, -1, (1, 15, -1), (vInt(1), -1), (31, -31)),
+    "BYYEARDAY": (1, -1, (100, -100), (366, -366)),
+    "BYWEEKNO": (1, -1, (20, 53), (-53, 53)),
     "BYMONTH": (1, (6, 12), "5L", (5, "5L"), ("7L", 7), "12L", ("10L", 3, "11L", 12), (vMonth(3), 9, "4L")),
-    "BYSETPOS": (1, -1, (1, -1)),
+    "BYSETPOS": (1, -1, (1, -1), (366, -366)),
     "WKST": ("MO", "SU"),
     "RSCALE": ("GREGORIAN", "HEBREW"),
     "SKIP": ("OMIT", "FORWARD", "BACKWARD"),
@@ -148,6 +149,10 @@ def expandable(supplied):
             return False
     if "COUNT" in names and "UNTIL" in names:
         return False
+    for p, v in supplied:
+        # values at the far end of a range select nothing in most periods: dateutil then searches (nearly) for ever
+        if p in ("BYSETPOS", "BYWEEKNO", "BYYEARDAY") and any(abs(int(x)) > 50 for x in as_list(v)):
+            return False
     freq = dict(supplied)["FREQ"]
     if freq in ("SECONDLY", "MINUTELY", "HOURLY") and names & {"BYMONTH", "BYYEARDAY", "BYWEEKNO", "BYMONTHDAY", "BYDAY", "BYSETPOS"}:
         return False  # dateutil walks sub-daily steps one by one: cost only, not semantics
